@@ -243,13 +243,28 @@ Theorem interval_add_month : forall v t,
 Proof. exact interval_add_months. Qed.
 Print Assumptions interval_add_month.
 
-(* a quarter is three months, a year is twelve *)
-Theorem interval_add_quarter : forall v t,
-  - 715827882 <= v <= 715827882 ->
-  interval_Add IntervalQuarter v t = interval_Add IntervalMonth (3 * v) t.
-Proof. exact interval_add_quarters. Qed.
-Print Assumptions interval_add_quarter.
+(* KNOWN FINDING (interval-quarter-four-months).  The intended statement is
+     interval_add_quarter : forall v t, - 715827882 <= v <= 715827882 ->
+       interval_Add IntervalQuarter v t = interval_Add IntervalMonth (3 * v) t.
+   It is FALSE of the code, which adds FOUR months per quarter; the pinned unit test TestInterval_Add asserts
+   that behaviour, so it cannot be repaired by a fix: commit.  The witness and what the code does instead: *)
+Theorem interval_add_quarter_refuted :
+  exists v t, wf_time t /\ sane t /\ - 715827882 <= v <= 715827882 /\
+    interval_Add IntervalQuarter v t = Some (mkT 1589536800 0 0) /\
+    interval_Add IntervalMonth (3 * v) t = Some (mkT 1586944800 0 0) /\
+    t_Date t = (2020, 1, 15) /\ t_Date (mkT 1589536800 0 0) = (2020, 5, 15) /\
+    t_Date (mkT 1586944800 0 0) = (2020, 4, 15) /\
+    interval_Add IntervalQuarter v t <> interval_Add IntervalMonth (3 * v) t.
+Proof. exact interval_add_quarters_refuted. Qed.
+Print Assumptions interval_add_quarter_refuted.
 
+Theorem interval_add_quarter_as_implemented : forall v t,
+  - 536870912 <= v <= 536870912 ->
+  interval_Add IntervalQuarter v t = interval_Add IntervalMonth (4 * v) t.
+Proof. exact interval_add_quarters_impl. Qed.
+Print Assumptions interval_add_quarter_as_implemented.
+
+(* a year is twelve months *)
 Theorem interval_add_year : forall v t,
   wf_time t -> sane t -> - 178956970 <= v <= 178956970 ->
   interval_Add IntervalYear v t = interval_Add IntervalMonth (12 * v) t.
@@ -261,16 +276,16 @@ Theorem interval_units_distinct : NoDup interval_scales.
 Proof. exact interval_units_nodup. Qed.
 Print Assumptions interval_units_distinct.
 
-(* non-vacuity: the three repaired defects as concrete instants that meet the hypotheses above, evaluated by
-   the model — 1960-05-05 12:00 UTC is Date32 -3528 (not -3527), 2290-01-01 at precision 3 comes back as
-   itself, 2020-01-15 10:00 plus one quarter is 2020-04-15 10:00; and a pre-1970 half-second floors *)
+(* non-vacuity: concrete instants that meet the hypotheses above, evaluated by the model — the two repaired
+   defects: 1960-05-05 12:00 UTC is Date32 -3528 (not -3527), 2290-01-01 at precision 3 comes back as itself;
+   2020-01-15 10:00 plus three months is 2020-04-15 10:00; and a pre-1970 half-second floors *)
 Example c20_nonvacuous :
   (let t := mkT (-304776000) 0 0 in
      t_IsZero t = false /\ local_day t = -3528 /\ to_date32 t = -3528 /\ t_Date (date32_Time (to_date32 t)) = (1960, 5, 5)) /\
   (let t := mkT 10098259200 0 0 in
      t_IsZero t = false /\ to_datetime64 t 3 = 10098259200000 /\ datetime64_Time 0 (to_datetime64 t 3) 3 = t /\ t_Date t = (2290, 1, 1)) /\
   (let t := mkT 1579082400 0 0 in
-     interval_Add IntervalQuarter 1 t = Some (mkT 1586944800 0 0) /\ t_Date (mkT 1586944800 0 0) = (2020, 4, 15)) /\
+     interval_Add IntervalMonth 3 t = Some (mkT 1586944800 0 0) /\ t_Date (mkT 1586944800 0 0) = (2020, 4, 15)) /\
   (let t := mkT (-631152000) 500000000 3600 in
      to_datetime64 t 0 = -631152000 /\ datetime64_Time 3600 (to_datetime64 t 0) 0 = mkT (-631152000) 0 3600).
 Proof. vm_compute. repeat split; reflexivity. Qed.
